@@ -32,6 +32,13 @@ class C16(Prop):
 
     def gen(self, rng, idx, tier):
         nodes, servers = gen.node_specs(1, unix=rng.random() < 0.15, item_max=rng.choice([None, None, 100]))
+        if rng.random() < 0.3:
+            # the same server, spelt the other documented ways: "host:port", "host" (default port), "unix:/path"
+            sv = codec.dec(servers[0])
+            if isinstance(sv, tuple):
+                servers[0] = E(rng.choice(["%s:%d" % sv, sv[0], sv[0], "[%s]:%d" % sv, "[%s]" % sv[0]]))
+            else:
+                servers[0] = E("unix:" + sv)
         ck = {}
         if rng.random() < 0.5:
             ck["key_prefix"] = E(rng.choice([b"p:", "strpfx-", b"x" * 100]))
